@@ -1,6 +1,8 @@
 ------------------------------ MODULE MultiRun ------------------------------
-(* Loading many runs in parallel (property C15): strax.utils.multi_run (at most 2*max_workers tasks
-   outstanding, completion in any order, results put in run-id order, ignore_errors) and the use of
+(* Loading many runs in parallel (property C15): strax.utils.multi_run - 2*max_workers tasks submitted at the start;
+   then, repeatedly: wait for the first completion, take the batch of futures that are done, look at each of them
+   (a failed one raises, or is skipped when errors are ignored), and submit as many new tasks as the batch was large;
+   stop when nothing is in flight - results put in run-id order - and the use of
    ONE context - its plugin class registry, a plain dict - by all worker threads.
 
    With several same-kind targets every get_iter call registers a temporary MergeOnly plugin under
@@ -19,7 +21,10 @@ CONSTANTS Runs,        \* sequence of run ids (numbers) in the order the caller 
           Multi,       \* several same-kind targets (temporary plugin needed)
           Fails,       \* set of runs whose processing raises
           IgnoreErrors,
-          Repaired
+          Repaired,
+          RefillOnSuccessOnly   \* FALSE: as the code does (one new task per finished future, failed or not).  TRUE: a variant that
+                                \* refills only for successful futures - after 2*max_workers ignored failures nothing is in flight and
+                                \* the remaining runs are dropped; kept to show that ResultOK notices.
 
 Sorted == LET S == {Runs[i] : i \in 1..Len(Runs)}
               RECURSIVE ord(_)
@@ -29,30 +34,45 @@ N == Len(Sorted)
 
 VARIABLES size, hasTemp,            \* the shared registry: number of keys, temporary key present
           next, running, doneOrder, \* multi_run: next task index, runs in flight, completion order of successful runs
+          batch, nrefill,           \* the futures_done batch being processed; tasks to submit after it
           wpc, iterSize, sawTemp, outcome,   \* per run: program counter, size when the open iterator was created, snapshot, result
           raised, returned
-vars == <<size, hasTemp, next, running, doneOrder, wpc, iterSize, sawTemp, outcome, raised, returned>>
+vars == <<size, hasTemp, next, running, doneOrder, batch, nrefill, wpc, iterSize, sawTemp, outcome, raised, returned>>
 
 RunSet == {Sorted[i] : i \in 1..N}
-Init == /\ size = 3 /\ hasTemp = FALSE /\ next = 1 /\ running = {} /\ doneOrder = <<>>
-        /\ wpc = [r \in RunSet |-> "idle"] /\ iterSize = [r \in RunSet |-> 0] /\ sawTemp = [r \in RunSet |-> FALSE]
+StartPc(r) == IF r \in Fails THEN "fail" ELSE IF Multi /\ ~Repaired THEN "it1" ELSE "compute"
+Min2(a, b) == IF a < b THEN a ELSE b
+NFirst == Min2(2 * MaxWorkers, N)
+Init == /\ size = 3 /\ hasTemp = FALSE /\ next = NFirst + 1 /\ running = {Sorted[i] : i \in 1..NFirst} /\ doneOrder = <<>>
+        /\ batch = {} /\ nrefill = 0
+        /\ wpc = [r \in RunSet |-> IF r \in {Sorted[i] : i \in 1..NFirst} THEN StartPc(r) ELSE "idle"]
+        /\ iterSize = [r \in RunSet |-> 0] /\ sawTemp = [r \in RunSet |-> FALSE]
         /\ outcome = [r \in RunSet |-> "none"] /\ raised = FALSE /\ returned = FALSE
 
 (* ------------------------------- multi_run ------------------------------- *)
-Submit == /\ ~raised /\ ~returned /\ next <= N /\ Cardinality(running) < 2 * MaxWorkers
-          /\ LET r == Sorted[next] IN
-             /\ running' = running \cup {r} /\ next' = next + 1
-             /\ wpc' = [wpc EXCEPT ![r] = IF r \in Fails THEN "fail" ELSE IF Multi /\ ~Repaired THEN "it1" ELSE "compute"]
-          /\ UNCHANGED <<size, hasTemp, doneOrder, iterSize, sawTemp, outcome, raised, returned>>
-\* the main thread collects a finished future
-Collect(r) == /\ r \in running /\ outcome[r] \in {"ok", "crash", "failed"} /\ ~raised /\ ~returned
-              /\ running' = running \ {r}
+Finished(r) == outcome[r] \in {"ok", "crash", "failed"}
+\* futures_done, _ = wait(futures, return_when=FIRST_COMPLETED): everything that is done by now
+Wait == /\ ~raised /\ ~returned /\ batch = {} /\ nrefill = 0 /\ \E r \in running : Finished(r)
+        /\ batch' = {r \in running : Finished(r)}
+        /\ UNCHANGED <<size, hasTemp, next, running, doneOrder, nrefill, wpc, iterSize, sawTemp, outcome, raised, returned>>
+\* for f in futures_done: pop it, look at its exception / result
+Collect(r) == /\ r \in batch /\ ~raised /\ ~returned
+              /\ running' = running \ {r} /\ batch' = batch \ {r}
               /\ IF outcome[r] = "ok" THEN doneOrder' = Append(doneOrder, r) /\ raised' = raised
                  ELSE IF IgnoreErrors THEN UNCHANGED <<doneOrder, raised>>
                  ELSE raised' = TRUE /\ UNCHANGED doneOrder
+              /\ nrefill' = IF RefillOnSuccessOnly /\ outcome[r] # "ok" THEN nrefill ELSE nrefill + 1
               /\ UNCHANGED <<size, hasTemp, next, wpc, iterSize, sawTemp, outcome, returned>>
-Return == /\ ~raised /\ ~returned /\ next > N /\ running = {} /\ returned' = TRUE
-          /\ UNCHANGED <<size, hasTemp, next, running, doneOrder, wpc, iterSize, sawTemp, outcome, raised>>
+\* for r in islice(run_ids, task_index, task_index + len(futures_done)): submit
+Submit == /\ ~raised /\ ~returned /\ batch = {} /\ nrefill > 0
+          /\ IF next <= N THEN LET r == Sorted[next] IN
+                /\ running' = running \cup {r} /\ next' = next + 1 /\ nrefill' = nrefill - 1
+                /\ wpc' = [wpc EXCEPT ![r] = StartPc(r)]
+             ELSE nrefill' = 0 /\ UNCHANGED <<running, next, wpc>>
+          /\ UNCHANGED <<size, hasTemp, doneOrder, batch, iterSize, sawTemp, outcome, raised, returned>>
+\* while futures: ... ends when nothing is in flight
+Return == /\ ~raised /\ ~returned /\ batch = {} /\ nrefill = 0 /\ running = {} /\ returned' = TRUE
+          /\ UNCHANGED <<size, hasTemp, next, running, doneOrder, batch, nrefill, wpc, iterSize, sawTemp, outcome, raised>>
 \* what the caller gets: the successful runs in run-id order
 Result == LET ok == {doneOrder[i] : i \in 1..Len(doneOrder)} IN SelectSeq(Sorted, LAMBDA r : r \in ok)
 
@@ -84,9 +104,9 @@ Worker(r) ==
         /\ UNCHANGED <<size, hasTemp, iterSize, sawTemp>>
      \/ /\ wpc[r] = "fail" /\ wpc' = [wpc EXCEPT ![r] = "end"] /\ outcome' = [outcome EXCEPT ![r] = "failed"]
         /\ UNCHANGED <<size, hasTemp, iterSize, sawTemp>>
-  /\ UNCHANGED <<next, running, doneOrder, raised, returned>>
+  /\ UNCHANGED <<next, running, doneOrder, batch, nrefill, raised, returned>>
 
-Next == Submit \/ Return \/ (\E r \in RunSet : Collect(r) \/ Worker(r))
+Next == Wait \/ Submit \/ Return \/ (\E r \in RunSet : Collect(r) \/ Worker(r))
 Spec == Init /\ [][Next]_vars /\ WF_vars(Next)
 
 (* ---------------------------------- P-level (C15) ---------------------------------- *)
